@@ -51,8 +51,8 @@ theorem frame_getOrCreateWriter (c : Cfg) (p : Proc) (i : Inst) (t : Topic) :
   · have := frame_getNextAvailableBlock c p i
     exact ⟨this.1, this.2⟩
 
-theorem frame_writerWrite (c : Cfg) (p : Proc) (i : Inst) (t : Topic) (w : Writer) (pay : Pay) :
-    (writerWrite c p i t w pay).1.dirs = p.dirs ∧ (writerWrite c p i t w pay).2.1.marks = i.marks := by
+theorem frame_writerWrite (c : Cfg) (p : Proc) (i : Inst) (t : Topic) (w : Writer) (pay : Pay) (flt : Option Fault) :
+    (writerWrite c p i t w pay flt).1.dirs = p.dirs ∧ (writerWrite c p i t w pay flt).2.1.marks = i.marks := by
   unfold writerWrite
   by_cases hb : w.batching = true
   · simp [hb]
@@ -69,9 +69,13 @@ theorem frame_writerWrite (c : Cfg) (p : Proc) (i : Inst) (t : Topic) (w : Write
         obtain ⟨p2, i2, nb⟩ := r
         have h2 := frame_allocBlock c p1 i1 _ _ ha
         simp only at h2 ⊢
-        by_cases hl : t.long = true <;> simp [hl, Inst.marks] at * <;> simp [h2, hs]
+        by_cases hf : flt = some ⟨0, 0⟩
+        · simp [hf, Inst.marks] at *; simp [h2, hs]
+        · by_cases hl : t.long = true <;> simp [hf, hl, Inst.marks] at * <;> simp [h2, hs]
     · simp only [hr, if_false]
-      by_cases hl : t.long = true <;> simp [hl, Inst.marks]
+      by_cases hf : flt = some ⟨0, 0⟩
+      · simp [hf, Inst.marks]
+      · by_cases hl : t.long = true <;> simp [hf, hl, Inst.marks]
 
 theorem frame_planBatch (c : Cfg) (t : Topic) (ps : List Pay) (p : Proc) (i : Inst) (b : Blk) (off : Nat)
     (acc : List (Blk × Nat × Pay)) :
@@ -96,8 +100,8 @@ theorem frame_planBatch (c : Cfg) (t : Topic) (ps : List Pay) (p : Proc) (i : In
         have := ih p2 i2 nb (c.metaSz + pay.len) ((nb, 0, pay) :: acc)
         exact ⟨by rw [this.1, h2.1, hs.1], by rw [this.2, h2.2, hs.2]⟩
 
-theorem frame_writerBatchWrite (c : Cfg) (p : Proc) (i : Inst) (t : Topic) (w : Writer) (ps : List Pay) :
-    (writerBatchWrite c p i t w ps).1.dirs = p.dirs ∧ (writerBatchWrite c p i t w ps).2.1.marks = i.marks := by
+theorem frame_writerBatchWrite (c : Cfg) (p : Proc) (i : Inst) (t : Topic) (w : Writer) (ps : List Pay) (flt : Option Fault) :
+    (writerBatchWrite c p i t w ps flt).1.dirs = p.dirs ∧ (writerBatchWrite c p i t w ps flt).2.1.marks = i.marks := by
   unfold writerBatchWrite
   split
   · exact ⟨rfl, rfl⟩
@@ -114,7 +118,10 @@ theorem frame_writerBatchWrite (c : Cfg) (p : Proc) (i : Inst) (t : Topic) (w : 
             obtain ⟨p1, i1, nb, o⟩ := r
             cases o with
             | none => exact this
-            | some x => obtain ⟨off, plan⟩ := x; exact this
+            | some x =>
+              obtain ⟨off, plan⟩ := x
+              simp only
+              cases batchFails flt plan.length <;> exact this
 
 theorem frame_readNextLoop (c : Cfg) (t : Topic) (cp : Bool) (fuel : Nat) (p : Proc) (i : Inst) (info : ColInfo) :
     (readNextLoop c t cp fuel p i info).1.dirs = p.dirs ∧ (readNextLoop c t cp fuel p i info).2.1.marks = i.marks := by
@@ -204,8 +211,8 @@ theorem reported_markClean (i : Inst) (t t' : Topic) (b : Bool) :
 theorem dir_markClean (i : Inst) (t : Topic) (b : Bool) : (markClean i t b).dir = i.dir := by
   unfold markClean; split; split <;> rfl
 
-theorem writerWrite_ne_closed (c : Cfg) (p : Proc) (i : Inst) (t : Topic) (w : Writer) (pay : Pay) :
-    (writerWrite c p i t w pay).2.2 ≠ some .closed := by
+theorem writerWrite_ne_closed (c : Cfg) (p : Proc) (i : Inst) (t : Topic) (w : Writer) (pay : Pay) (flt : Option Fault) :
+    (writerWrite c p i t w pay flt).2.2 ≠ some .closed := by
   unfold writerWrite
   by_cases hb : w.batching = true
   · simp [hb]
@@ -219,12 +226,16 @@ theorem writerWrite_ne_closed (c : Cfg) (p : Proc) (i : Inst) (t : Topic) (w : W
       | none => simp
       | some r =>
         obtain ⟨p2, i2, nb⟩ := r
-        by_cases hl : t.long = true <;> simp [hl]
+        by_cases hf : flt = some ⟨0, 0⟩
+        · simp [hf]
+        · by_cases hl : t.long = true <;> simp [hf, hl]
     · simp only [hr, if_false]
-      by_cases hl : t.long = true <;> simp [hl]
+      by_cases hf : flt = some ⟨0, 0⟩
+      · simp [hf]
+      · by_cases hl : t.long = true <;> simp [hf, hl]
 
-theorem writerBatchWrite_ne_closed (c : Cfg) (p : Proc) (i : Inst) (t : Topic) (w : Writer) (ps : List Pay) :
-    (writerBatchWrite c p i t w ps).2.2 ≠ some .closed := by
+theorem writerBatchWrite_ne_closed (c : Cfg) (p : Proc) (i : Inst) (t : Topic) (w : Writer) (ps : List Pay) (flt : Option Fault) :
+    (writerBatchWrite c p i t w ps flt).2.2 ≠ some .closed := by
   unfold writerBatchWrite
   split
   · simp
@@ -240,60 +251,63 @@ theorem writerBatchWrite_ne_closed (c : Cfg) (p : Proc) (i : Inst) (t : Topic) (
             obtain ⟨p1, i1, nb, o⟩ := r
             cases o with
             | none => simp
-            | some x => obtain ⟨off, plan⟩ := x; simp
+            | some x =>
+              obtain ⟨off, plan⟩ := x
+              simp only
+              cases batchFails flt plan.length <;> simp
 
-theorem appendForTopic_ne_closed (c : Cfg) (p : Proc) (i : Inst) (t : Topic) (pay : Pay) :
-    (appendForTopic c p i t pay).2.2 ≠ .err .closed := by
+theorem appendForTopic_ne_closed (c : Cfg) (p : Proc) (i : Inst) (t : Topic) (pay : Pay) (flt : Option Fault) :
+    (appendForTopic c p i t pay flt).2.2 ≠ .err .closed := by
   unfold appendForTopic
   simp only
   generalize getOrCreateWriter c p (markClean i t false) t = g
   obtain ⟨p1, i1, w⟩ := g
-  have h := writerWrite_ne_closed c p1 i1 t w pay
-  generalize writerWrite c p1 i1 t w pay = r at h ⊢
+  have h := writerWrite_ne_closed c p1 i1 t w pay flt
+  generalize writerWrite c p1 i1 t w pay flt = r at h ⊢
   obtain ⟨a, b, o⟩ := r
   cases o with
   | none => simp
   | some k => simp only at h ⊢; intro hk; injection hk with hk; exact h (by rw [hk])
 
-theorem batchAppendForTopic_ne_closed (c : Cfg) (p : Proc) (i : Inst) (t : Topic) (ps : List Pay) :
-    (batchAppendForTopic c p i t ps).2.2 ≠ .err .closed := by
+theorem batchAppendForTopic_ne_closed (c : Cfg) (p : Proc) (i : Inst) (t : Topic) (ps : List Pay) (flt : Option Fault) :
+    (batchAppendForTopic c p i t ps flt).2.2 ≠ .err .closed := by
   unfold batchAppendForTopic
   simp only
   generalize getOrCreateWriter c p (markClean i t false) t = g
   obtain ⟨p1, i1, w⟩ := g
-  have h := writerBatchWrite_ne_closed c p1 i1 t w ps
-  generalize writerBatchWrite c p1 i1 t w ps = r at h ⊢
+  have h := writerBatchWrite_ne_closed c p1 i1 t w ps flt
+  generalize writerBatchWrite c p1 i1 t w ps flt = r at h ⊢
   obtain ⟨a, b, o⟩ := r
   cases o with
   | none => simp
   | some k => simp only at h ⊢; intro hk; injection hk with hk; exact h (by rw [hk])
 
-theorem frame_appendForTopic (c : Cfg) (p : Proc) (i : Inst) (t : Topic) (pay : Pay) :
-    (appendForTopic c p i t pay).1.dirs = p.dirs ∧
-      (appendForTopic c p i t pay).2.1.marks = (markClean i t false).marks := by
+theorem frame_appendForTopic (c : Cfg) (p : Proc) (i : Inst) (t : Topic) (pay : Pay) (flt : Option Fault) :
+    (appendForTopic c p i t pay flt).1.dirs = p.dirs ∧
+      (appendForTopic c p i t pay flt).2.1.marks = (markClean i t false).marks := by
   unfold appendForTopic
   simp only
   have h1 := frame_getOrCreateWriter c p (markClean i t false) t
   generalize getOrCreateWriter c p (markClean i t false) t = g at h1 ⊢
   obtain ⟨p1, i1, w⟩ := g
-  have h2 := frame_writerWrite c p1 i1 t w pay
-  generalize writerWrite c p1 i1 t w pay = r at h2 ⊢
+  have h2 := frame_writerWrite c p1 i1 t w pay flt
+  generalize writerWrite c p1 i1 t w pay flt = r at h2 ⊢
   obtain ⟨p2, i2, eo⟩ := r
   simp only at h1 h2 ⊢
   cases eo with
   | some er => exact ⟨by rw [h2.1, h1.1], by rw [h2.2, h1.2]⟩
   | none => exact ⟨by rw [h2.1, h1.1], by rw [marks_incCount, h2.2, h1.2]⟩
 
-theorem frame_batchAppendForTopic (c : Cfg) (p : Proc) (i : Inst) (t : Topic) (ps : List Pay) :
-    (batchAppendForTopic c p i t ps).1.dirs = p.dirs ∧
-      (batchAppendForTopic c p i t ps).2.1.marks = (markClean i t false).marks := by
+theorem frame_batchAppendForTopic (c : Cfg) (p : Proc) (i : Inst) (t : Topic) (ps : List Pay) (flt : Option Fault) :
+    (batchAppendForTopic c p i t ps flt).1.dirs = p.dirs ∧
+      (batchAppendForTopic c p i t ps flt).2.1.marks = (markClean i t false).marks := by
   unfold batchAppendForTopic
   simp only
   have h1 := frame_getOrCreateWriter c p (markClean i t false) t
   generalize getOrCreateWriter c p (markClean i t false) t = g at h1 ⊢
   obtain ⟨p1, i1, w⟩ := g
-  have h2 := frame_writerBatchWrite c p1 i1 t w ps
-  generalize writerBatchWrite c p1 i1 t w ps = r at h2 ⊢
+  have h2 := frame_writerBatchWrite c p1 i1 t w ps flt
+  generalize writerBatchWrite c p1 i1 t w ps flt = r at h2 ⊢
   obtain ⟨p2, i2, eo⟩ := r
   simp only at h1 h2 ⊢
   cases eo with
